@@ -192,6 +192,28 @@ class StoreModel(FsModel):
         return super().method_hook(ex, recv, name, args, node)
 
 
+CROSS = {"queries": 0, "disagree": []}
+
+
+def cross_check(smt2, z3_verdict):
+    """the same query, as SMT-LIB2 text, decided by cvc5; a disagreement makes the run inconclusive"""
+    import shutil
+    import subprocess
+    exe = shutil.which("cvc5")
+    if exe is None:
+        return
+    try:
+        p = subprocess.run([exe, "--lang", "smt2", "--tlimit", "20000"], input=smt2, stdout=subprocess.PIPE, stderr=subprocess.PIPE, text=True, timeout=40)
+    except subprocess.TimeoutExpired:
+        return
+    out = p.stdout.strip().splitlines()
+    CROSS["queries"] += 1
+    if "(error" in p.stdout or not out:
+        CROSS["disagree"].append("cvc5 could not read the query: " + (p.stdout + p.stderr)[:200])
+    elif out[0] in ("sat", "unsat") and out[0] != z3_verdict:
+        CROSS["disagree"].append("z3 says %s, cvc5 says %s" % (z3_verdict, out[0]))
+
+
 # ---- R: ranged reads ----------------------------------------------------------------------------------------------------------------
 def rfc_slice(kind, first, last, length, ln):
     """-> (satisfiable: z3 Bool, start, end_exclusive) per RFC 9110 section 14.1.2"""
@@ -262,6 +284,8 @@ def ranged_reads(prog):
             sol.add(extra)
             r = sol.check()
             mod = sol.model() if r == z3.sat else None
+            if os.environ.get("VERIF_CVC5", "1") != "0" and r in (z3.sat, z3.unsat):
+                cross_check(sol.to_smt2(), "sat" if r == z3.sat else "unsat")
             sol.pop()
             n_q += 1
             return r, mod
@@ -326,7 +350,9 @@ def ranged_reads(prog):
                 findings.setdefault("range:%s:%s" % (nm, form), ("get_object answers a ranged read with a %s that is not the RFC 9110 slice's" % nm, wit(mod)))
             elif r != z3.unsat:
                 raise Inconclusive("solver: %s" % r)
-    return findings, {"paths": len(paths), "queries": n_q + ex.queries}
+    if CROSS["disagree"]:
+        raise Inconclusive("ranged reads: solver cross-check: %s" % CROSS["disagree"][0])
+    return findings, {"paths": len(paths), "queries": n_q + ex.queries, "queries_cross_checked_with_cvc5": CROSS["queries"]}
 
 
 # ---- O / M / S: effect-trace obligations ---------------------------------------------------------------------------------------------------
